@@ -71,6 +71,75 @@ def body(h):
     return [space.current]
 
 
+# ---- session level: the whole interpreter, program template with string statements ------------------
+
+SESSION_PROG = [
+    b'10 A$="abcdefgh"',
+    b'20 B$=LEFT$(S$,L%)',
+    b'30 Z$=MID$(B$,P%)',
+    b'40 C$=T$+""',
+    b'50 IF G1% THEN F=FRE("")',
+    b'60 D$=B$+C$+(Z$+LEFT$(T$,1+0*FRE("")))',
+    b'70 MID$(A$,K%)=B$',
+    b'80 IF G3% THEN F=FRE("")',
+    b'90 E$=A$+Z$: W$=S$: S$="": T$=T$+"!"',
+    b'100 IF G1% THEN F=FRE("")',
+    b'110 V$=D$+E$: OK%=1',
+]
+FILL = [b'DIM F$(30)', b'I%=0', b'WHILE FRE(0)>M%: F$(I%)=STRING$(100,"f"): I%=I%+1: WEND']
+
+
+def body_session(h):
+    """string statements under (optional) memory pressure with collections at chosen points"""
+    from . import session
+    # (a small data segment, so that the filler loop is short)
+    impl = session.mk_impl(h, max_memory=8000) if h.params['tight'] else session.mk_impl(h)
+    for line in SESSION_PROG:
+        impl.execute(line)
+    impl.execute(b'L%=0:P%=0:K%=0:G1%=0:G3%=0:OK%=0:M%=0:F=0:I%=0')
+    # every variable exists before memory is filled, so that only string space is needed afterwards
+    impl.execute(b'A$="":B$="":C$="":D$="":E$="":V$="":W$="":Z$="":S$="":T$=""')
+    L = h.choice('L', [0, 2, 6])
+    P = h.choice('P', [1, 2, 3, 7])
+    K = h.choice('K', [1, 4, 8])
+    G1 = h.choice('G1', [0, 1])
+    G3 = h.choice('G3', [0, 1])
+    s = h.bytes('s', 6)
+    t = h.bytes('t', 3)
+    impl.set_variable(b'S$', s)
+    impl.set_variable(b'T$', t)
+    impl.execute(b'L%%=%d:P%%=%d:K%%=%d:G1%%=%d:G3%%=%d' % (L, P, K, G1, G3))
+    if h.params['tight']:
+        impl.execute(b'M%%=%d' % h.params['tight'])
+        for line in FILL:
+            impl.execute(line)
+    impl.execute(b'GOTO 10')
+    h.require('program-completed', s_and(impl.interpreter.error_num == 0, s16(session.peek_raw(impl, b'OK%')) == 1),
+              impl.interpreter.error_num)
+    # reference with Python lists
+    S, T = list(s), list(t)
+    A = list(b'abcdefgh')
+    B = S[:L]
+    Z = B[P - 1:]
+    C = list(T)
+    D = B + C + Z + T[:1]
+    n = min(len(B), len(A) - K + 1)
+    A2 = A[:K - 1] + B[:n] + A[K - 1 + n:]
+    E = A2 + Z
+    want = {b'A$': A2, b'B$': B, b'Z$': Z, b'C$': C, b'D$': D, b'E$': E, b'W$': S, b'S$': [],
+            b'T$': T + [33], b'V$': D + E}
+    obs = []
+    for name in sorted(want):
+        got = impl.get_variable(name)
+        h.require('value-of-%s' % name.decode(), s_and(len(got) == len(want[name]), bytes_eq(got, want[name])), got)
+        obs.append(list(got))
+    if h.params['tight']:
+        fill = impl.get_variable(b'F$()')
+        count = s16(session.peek_raw(impl, b'I%'))
+        h.require('filler-strings-intact', all(bytes(f) == (b'f' * 100 if i < count else b'') for i, f in enumerate(fill)))
+    return obs
+
+
 def cases(tier):
     cs = []
     shapes = [(1,), (0, 2), (2, 1), (3, 0, 1), (1, 1, 1), (2, 3, 1)]
@@ -80,4 +149,7 @@ def cases(tier):
         for nl in (0, 2):
             cs.append(Case('heap-%s-new%d' % ('_'.join(map(str, lens)), nl), body,
                            params={'lens': lens, 'newlen': nl}, max_fanout=100))
+    for tight in ([0, 250, 180] if tier != 'thorough' else [0, 300, 250, 220, 180, 160]):
+        cs.append(Case('session-strings-free%d' % tight, body_session, params={'tight': tight},
+                       max_fanout=100, timeout_s=3000, max_paths=5000))
     return cs
